@@ -148,6 +148,22 @@ pub fn run(ctx: &Ctx) -> i32 {
     if prop == "C20" && ctx.replay.is_none() {
         c20_ttl(ctx, &mut out);
     }
+    if prop == "C02" && ctx.replay.is_none() && (std::env::var("VERIF_ONLY").is_err() || std::env::var("VERIF_WIN_ONLY").is_ok()) {
+        // windows half: reordering inside / outside the configured ratchet and past-epoch windows
+        let dir = ctx.scratch_dir("c02win");
+        let n = ctx.budget(120, 2400) as u64;
+        let mut ctx2 = ctx.clone();
+        ctx2.prop = "C02-windows".into();
+        let only_win: Option<u64> = std::env::var("VERIF_WIN_ONLY").ok().and_then(|s| s.parse().ok());
+        let o = crate::par::run(&ctx2, n, Duration::from_secs(ctx.tier.pick(60, 600)), |i, rng, out| {
+            if only_win.map(|o| o == i).unwrap_or(true) {
+                super::c02win::trial(i, rng, out, &dir)
+            }
+        });
+        let _ = std::fs::remove_dir_all(&dir);
+        out.add("c02win_trials", o.evaluations);
+        out.merge(o);
+    }
     let (rule, floors, assumptions) = describe(prop, &out, ctx);
     finish(ctx, "exploration", rule, out, floors, assumptions, json!({}))
 }
@@ -277,7 +293,7 @@ fn describe(prop: &str, out: &Outcome, ctx: &Ctx) -> (&'static str, Vec<Floor>, 
         ),
         "C02" => (
             "same histories as C01 with the message oracle: every application message created on the canonical chain must be stored exactly once, intact and Processed at every converged client that was in the sending state; messages of losing branches must not be left valid; non-trivial = at least one rollback; distinct = distinct schedules",
-            if replaying { vec![] } else { vec![Floor { what: "due canonical messages checked", have: out.get("c02_due_messages_checked"), need: 500 }, Floor { what: "losing-branch messages checked", have: out.get("c02_losing_branch_messages_checked"), need: 20 }] },
+            if replaying { vec![] } else { vec![Floor { what: "due canonical messages checked", have: out.get("c02_due_messages_checked"), need: 500 }, Floor { what: "losing-branch messages checked", have: out.get("c02_losing_branch_messages_checked"), need: 20 }, Floor { what: "window trials: due messages checked", have: out.get("c02win_due_checked"), need: 500 }, Floor { what: "window trials: due messages checked at a joiner", have: out.get("c02win_due_checked_at_joiner"), need: 100 }, Floor { what: "window trials: forced forward jumps beyond what defaults/swapped parameters allow", have: out.get("c02win_forced_forward_jumps"), need: 100 }] },
             common_assumptions,
         ),
         "C07" => (
